@@ -263,10 +263,13 @@ def _typed_worker(a):
                 else:
                     text2, val2 = bad, None
                 settings.append(dict(name="k%d" % j, st=st, dtext=dtext, dval=dval, t1=text, v1=val, t2=text2, v2=val2))
-            f1 = confgen.render_conservative([(b"ty", ("obj", [(s["name"].encode(), ("str", s["t1"].encode())) for s in settings]))])
-            f2 = confgen.render_conservative([(b"ty", ("obj", [(s["name"].encode(), ("str", s["t2"].encode())) for s in settings]))])
+            # in a third of the cases another integer setting, read before all the others, carries a number no integer type holds
+            # (its own value is not judged): whatever the C library reports about it must not affect the settings read after it
+            big = [(b"a_big", ("str", rng.choice([b"99999999999999999999999", b"0xffffffffffffffffffffffff", b"-99999999999999999999999"])))] if i % 3 == 1 else []
+            f1 = confgen.render_conservative([(b"ty", ("obj", big + [(s["name"].encode(), ("str", s["t1"].encode())) for s in settings]))])
+            f2 = confgen.render_conservative([(b"ty", ("obj", big + [(s["name"].encode(), ("str", s["t2"].encode())) for s in settings]))])
             p1, p2 = b.add_file(f1), b.add_file(f2)
-            reg = ["REG str ty/%s %d %s" % (s["name"], s["st"], confgen.pct(s["dtext"])) for s in settings]
+            reg = (["REG str ty/a_big 2 0"] if big else []) + ["REG str ty/%s %d %s" % (s["name"], s["st"], confgen.pct(s["dtext"])) for s in settings]
             order = rng.choice(["reg-first", "reg-after-load"])
             second = ["COPY " + confgen.pct(p2) + " " + confgen.pct(p1), "LOAD " + confgen.pct(p1)] if inplace else ["LOAD " + confgen.pct(p2)]
             cmds = (reg if order == "reg-first" else []) + ["LOAD " + confgen.pct(p1)] + (reg if order != "reg-first" else []) + \
